@@ -6,6 +6,7 @@ summary = []
 for d in sorted(glob.glob(ROOT + "/C*-*")):
     name = os.path.basename(d)
     pid = name.split("-")[0]
+    pid = {"R03": "C03", "R05": "C05", "R08": "C08", "R09": "C09", "R15": "C15"}.get(pid, pid)
     v = open(os.path.join(d, "verify.log")).read() if os.path.exists(os.path.join(d, "verify.log")) else ""
     m = re.search(r"applied=(\d+) build=(\d+) demo_clean=(\d+) demo_mutant=(\d+) suite=(\d+)", v)
     conf = None
@@ -22,13 +23,18 @@ for d in sorted(glob.glob(ROOT + "/C*-*")):
         viols = [re.sub(r".*# ", "", l) for l in txt.splitlines() if l.startswith("VIOLATION")]
         det[p] = {"violations": viols[:6], "detected": bool(viols),
                   "inconclusive": [l for l in txt.splitlines() if l.startswith("INCONCLUSIVE") or l.startswith("ENGINE")][:3]}
+    first = []
+    for lf in sorted(glob.glob(d + "/check_*.log")):
+        p = re.search(r"check_(C\d+)\.log", lf).group(1)
+        if any(l.startswith("VIOLATION") for l in open(lf)):
+            first.append(p)
     files = re.findall(r"^\+\+\+ b/(\S+)", open(os.path.join(d, "patch.diff")).read(), re.M)
     meta = {"seed": name, "property": pid, "files_changed": files,
             "what_it_breaks_and_needs": notes.strip()[:1800],
             "independent_confirmation": conf, "confirmed": confirmed,
             "ran": ["tools/seed_verify.sh %s %s  (scratch worktree: demo without patch, apply, build, demo with patch, full suite minus examples)" % (pid, name.split("-")[1]),
                     "tools/seed_recheck.sh %s <properties>  (git -C /repo apply; ./check <id> quick; git -C /repo reset --hard)" % name],
-            "checks": det, "detected_by": sorted(p for p, x in det.items() if x["detected"])}
+            "first_run_detected_by": first, "checks": det, "detected_by": sorted(p for p, x in det.items() if x["detected"])}
     json.dump(meta, open(os.path.join(d, "meta.json"), "w"), indent=1)
     summary.append((name, confirmed, meta["detected_by"]))
 for s in summary:
